@@ -151,16 +151,33 @@ class SymMap(dict):
 # --------------------------------------------------------------------------------------------------
 
 class SLoop(VLoop):
+    def __init__(self, picker=None):
+        super().__init__(picker)
+        self.io_events: list = []       # (virtual time, fn): external I/O that is ready at that instant
+
     def tick(self, t_max):
         """one scheduling step.  'step': one ready callback ran; 'jump': nothing was ready, the clock moved to the
         next timer; None: nothing is scheduled up to t_max"""
         if self.step():
             return 'step'
         nt = self.next_timer()
+        ht = min((w for w, _ in self.io_events), default=None)
+        if ht is not None and (nt is None or ht <= nt):
+            nt = ht
         if nt is None or nt > t_max:
             return None
         self._time = max(self._time, nt)
+        # I/O that is ready when the loop wakes up is dispatched BEFORE the timers that became due (asyncio's _run_once
+        # appends the selector events to the ready queue ahead of the due timer handles)
+        due = [e for e in self.io_events if e[0] <= self._time]
+        self.io_events = [e for e in self.io_events if e[0] > self._time]
+        for _, fn in due:
+            fn()
         return 'jump'
+
+    def io_at(self, when, fn):
+        """`fn` (plain function, run outside any callback) happens at virtual time `when`, ahead of every timer due then"""
+        self.io_events.append((when, fn))
 
     def task(self, coro, name=None):
         """create a task from inside or outside a loop callback"""
@@ -578,7 +595,8 @@ STUBS = [
     'Network._expected_connection_futures and Network._ip_overrides -> engine.c11env.SymMap while exploring (same mapping '
     'operations; a lookup compares the probe with the stored keys by == so that a symbolic ticket / user name forks instead of '
     'being hashed); plain dict in concrete replay',
-    'asyncio event loop -> engine.vloop.VLoop (virtual time, FIFO ready queue, timer heap)',
+    'asyncio event loop -> engine.vloop.VLoop (virtual time, FIFO ready queue, timer heap); engine.c11env.SLoop adds io_at(): external I/O '
+    'that is ready at a virtual instant is dispatched ahead of the timers due at that instant (as asyncio._run_once does)',
     'secrets.token_bytes in aioslsk.protocol.obfuscation -> key bytes supplied by the harness (symbolic; model bytes in replay)',
     'logging disabled (engine/cli.py)',
 ]
